@@ -36,8 +36,6 @@ def classify(e, before):
     k = e[0]
     if k == 'data':
         nm = sc.name_of(e)[2]
-        if nm in ('open_hold1', 'open_hold2') and before[1] == 0:
-            return None     # own hold time 0: min(own, proposed) = 0 is accepted (C05-hold-1-2-accepted-when-own-hold-0)
         return MSG_EVENT.get(nm)
     if k == 'fire':
         return TIMER_EVENT.get(e[1])
